@@ -11,7 +11,7 @@ from ..spaces import prog_of, shard_iter
 from .c03 import up_closed_sets
 
 ID = "C12"
-BUDGET = {"quick": 100, "thorough": 900}
+BUDGET = {"quick": 240, "thorough": 900}
 
 
 def variants(n, es):
